@@ -76,7 +76,7 @@ fn drain(fd: RawFd) -> Vec<u8> {
 }
 
 #[derive(Default, Clone, Debug)]
-pub struct WireStats { pub foreign: u64, pub foreign_syn_other: u64, pub foreign_syn: u64, pub foreign_msc: u64, pub foreign_autorepeat: u64, pub foreign_unknown_code: u64, pub foreign_other_type: u64, pub foreign_big_code: u64, pub eagain_mid_skip: u64, pub batches: u64, pub records_written: u64 }
+pub struct WireStats { pub failed_sends_before: u64, pub sends_before: u64, pub foreign: u64, pub foreign_syn_other: u64, pub foreign_syn: u64, pub foreign_msc: u64, pub foreign_autorepeat: u64, pub foreign_unknown_code: u64, pub foreign_other_type: u64, pub foreign_big_code: u64, pub eagain_mid_skip: u64, pub batches: u64, pub records_written: u64 }
 
 pub struct Pipes { pub kbd_r: RawFd, pub kbd_w: RawFd, pub tab_r: RawFd, pub tab_w: RawFd, pub out_r: RawFd, pub out_w: RawFd }
 impl Pipes {
@@ -201,6 +201,12 @@ impl ByteLayer for PipeLayer {
   fn poll_now(&mut self) -> Result<Option<Vec<VDevice>>, String> {
     match self.drv.poll_now()? { VPoll::Devices(ds) => Ok(Some(ds)), VPoll::TimedOut => Ok(None), VPoll::Interrupted => Err("the real poll was interrupted".into()) }
   }
+  fn hangup(&mut self, tablet: bool) {
+    // closing the write end is what a pipe offers for "the device went away": the read end shows a
+    // hang-up, records already queued stay readable
+    if tablet { if self.p.tab_w >= 0 { let _ = close(self.p.tab_w); self.p.tab_w = -1; } }
+    else if self.p.kbd_w >= 0 { let _ = close(self.p.kbd_w); self.p.kbd_w = -1; }
+  }
   fn unplug(&mut self, tablet: bool) {
     crate::sysseam::fail_reads(if tablet { self.p.tab_r } else { self.p.kbd_r }, libc::ENODEV);
   }
@@ -208,7 +214,9 @@ impl ByteLayer for PipeLayer {
     // The descriptor number must stay allocated (another worker thread could be handed it the
     // moment it is closed), so the write end is dup2'ed over the read end: a read on a descriptor
     // that is not open for reading fails with EBADF.
-    if tablet { let _ = nix::unistd::dup2(self.p.tab_w, self.p.tab_r); } else { let _ = nix::unistd::dup2(self.p.kbd_w, self.p.kbd_r); }
+    let (w, r) = if tablet { (self.p.tab_w, self.p.tab_r) } else { (self.p.kbd_w, self.p.kbd_r) };
+    // (after a hang-up there is no write end left to dup: the system-call seam fails the reads)
+    if w >= 0 { let _ = nix::unistd::dup2(w, r); } else { crate::sysseam::fail_reads(r, libc::EBADF); }
   }
 }
 
@@ -224,13 +232,17 @@ pub struct CaseC {
   pub bursts: Vec<Vec<Rec>>,
   /// feed the writer's own bytes to the reader first
   pub loopback: bool,
+  /// an earlier batch sent through the same writer: kind 0 = its write fails (the consumer's queue
+  /// is full: EAGAIN) and the queue is drained afterwards, kind 1 = it is written normally. Either
+  /// way the bytes of `batch` must be exactly `batch`'s ("for every batch of output events").
+  pub before: Option<(u8, Vec<Event>)>,
 }
 #[derive(Clone, Debug, PartialEq)]
 pub enum Rec { Key(Event), Foreign(u64, u64) }
 
 impl CaseC {
   pub fn json(&self) -> Value {
-    json!({"world": "C", "batch": evs_json(&self.batch), "loopback": self.loopback,
+    json!({"world": "C", "batch": evs_json(&self.batch), "loopback": self.loopback, "before": self.before.as_ref().map(|(k, b)| json!([k, evs_json(b)])),
       "bursts": self.bursts.iter().map(|b| b.iter().map(|r| match r { Rec::Key(e) => json!(ev_str(e)), Rec::Foreign(s, a) => json!(["f", s, a]) }).collect::<Vec<_>>()).collect::<Vec<_>>()})
   }
   pub fn from_json(v: &Value) -> Result<CaseC, String> {
@@ -245,7 +257,11 @@ impl CaseC {
       }
       bursts.push(burst);
     }
-    Ok(CaseC { batch, bursts, loopback: v.get("loopback").and_then(|x| x.as_bool()).unwrap_or(true) })
+    let before = match v.get("before").and_then(|x| x.as_array()) {
+      Some(a) if a.len() == 2 => { let mut b = vec![]; for e in a[1].as_array().cloned().unwrap_or_default() { b.push(ev_from(e.as_str().ok_or("bad event")?)?); } Some((a[0].as_u64().unwrap_or(0) as u8, b)) }
+      _ => None,
+    };
+    Ok(CaseC { batch, bursts, loopback: v.get("loopback").and_then(|x| x.as_bool()).unwrap_or(true), before })
   }
   pub fn hash(&self) -> u64 {
     let mut h = H::new();
@@ -253,6 +269,7 @@ impl CaseC {
     h.u(0xCC);
     for b in &self.bursts { h.u(0xCD); for r in b { match r { Rec::Key(e) => hash_ev(&mut h, e), Rec::Foreign(s, a) => { h.u(0x5000 + s); h.u(*a); } } } }
     h.u(self.loopback as u64);
+    if let Some((k, b)) = &self.before { h.u(0xCE + *k as u64); for e in b { hash_ev(&mut h, e); } }
     h.fin()
   }
 }
@@ -262,6 +279,17 @@ pub fn execute_c(case: &CaseC, stats: &mut WireStats, digest: &mut u64) -> Optio
   let mut writer = DevInputWriter::verif_from_fd(p.out_w);
   let mut reader = DevInputReader { fd: p.kbd_r };
   let mut d = H::new();
+  // (o) an earlier batch through the same writer, failed (queue full) or not
+  if let Some((kind, eb)) = &case.before {
+    if *kind == 0 {
+      let filler = vec![0u8; 4096];
+      for _ in 0..64 { if write(p.out_w, &filler).is_err() { break; } }
+      let one = [0u8; 1];
+      for _ in 0..8192 { if write(p.out_w, &one).is_err() { break; } }
+      if writer.send(eb).is_err() { stats.failed_sends_before += 1; }
+    } else { let _ = writer.send(eb); stats.sends_before += 1; }
+    let _ = drain(p.out_r);
+  }
   // (i) write side
   if let Err(e) = writer.send(&case.batch) { return Some(Violation::new("C18-write-error", 0, format!("the real writer failed on a pipe: {}", e))); }
   stats.batches += 1;
@@ -319,14 +347,14 @@ impl WireCampaign {
       let len = (idx % (MAX_SWEPT_LEN + 1)) as usize;
       let mut batch = vec![];
       for _ in 0..len { let k = rng.pick(&self.keys); batch.push(if rng.chance(1, 2) { Pressed(k) } else { Released(k) }); }
-      return CaseC { batch, bursts: vec![], loopback: true };
+      return CaseC { batch, bursts: vec![], loopback: true, before: None };
     }
     if self.exhaustive_codes {
       // run idx covers key idx: press and release alone and inside a batch
       let k = self.keys[(idx as usize) % self.keys.len()];
       let other = self.keys[rng.below(self.keys.len())];
       let batch = match idx as usize / self.keys.len() { 0 => vec![Pressed(k)], 1 => vec![Released(k)], _ => vec![Pressed(other), Pressed(k), Released(k), Released(other)] };
-      return CaseC { batch: batch.clone(), bursts: vec![vec![Rec::Foreign(1, 30), Rec::Key(Pressed(k)), Rec::Foreign(0, 0), Rec::Foreign(2, 0), Rec::Key(Released(k)), Rec::Foreign(0, 0)]], loopback: true };
+      return CaseC { batch: batch.clone(), bursts: vec![vec![Rec::Foreign(1, 30), Rec::Key(Pressed(k)), Rec::Foreign(0, 0), Rec::Foreign(2, 0), Rec::Key(Released(k)), Rec::Foreign(0, 0)]], loopback: true, before: None };
     }
     let len = match rng.below(10) { 0 => 0, 1 => 1, 2..=6 => rng.range(2, 8), _ => rng.range(9, if thorough { 200 } else { 64 }) };
     let mut batch = vec![];
@@ -343,7 +371,13 @@ impl WireCampaign {
       }
       bursts.push(b);
     }
-    CaseC { batch, bursts, loopback: rng.chance(3, 4) }
+    let loopback = rng.chance(3, 4);
+    let before = if rng.chance(1, 4) {
+      let mut b = vec![];
+      for _ in 0..rng.range(1, 6) { let k = rng.pick(&self.keys); b.push(if rng.chance(1, 2) { Pressed(k) } else { Released(k) }); }
+      Some((rng.below(2) as u8, b))
+    } else { None };
+    CaseC { batch, bursts, loopback, before }
   }
 }
 
@@ -387,6 +421,7 @@ impl Campaign for WireCampaign {
     acc.fault("foreign_syn_report", stats.foreign_syn); acc.fault("foreign_syn_dropped_config_mt", stats.foreign_syn_other); acc.fault("foreign_msc_scan", stats.foreign_msc); acc.fault("foreign_autorepeat_value2", stats.foreign_autorepeat);
     acc.fault("foreign_unknown_key_code", stats.foreign_unknown_code); acc.fault("foreign_code_above_enum", stats.foreign_big_code); acc.fault("foreign_other_type_or_value", stats.foreign_other_type);
     acc.fault("eagain_while_skipping_foreign_records", stats.eagain_mid_skip);
+    acc.fault("earlier_send_failed_eagain_on_a_full_queue", stats.failed_sends_before); acc.probe_n("earlier_batch_through_the_same_writer", stats.sends_before + stats.failed_sends_before);
     acc.count("batches_written", stats.batches); acc.count("records_fed_to_reader", stats.records_written); acc.count("steps", 1 + case.bursts.len() as u64);
     let nt = case.batch.len() >= 2 || case.bursts.iter().any(|b| b.iter().any(|r| matches!(r, Rec::Foreign(..))));
     let sample = if ctx.want_sample { Some(case.json()) } else { None };
